@@ -395,7 +395,9 @@ def search(mod, tier, base_seed, workers=None, budget_s=None, max_runs=None, qui
         for _ in range(workers * 2):
             if not submit():
                 break
-        hard_deadline = t0 + max(budget * 6, budget + 120)
+        # a guard against hangs only, never a verdict: generous enough that a machine shared with other checks (where a quick tier
+        # can take several times its idle wall time) does not turn into a harness error
+        hard_deadline = t0 + max(budget * 10, budget + 600)
         while pending:
             done, _ = wait(pending, timeout=5, return_when=FIRST_COMPLETED)
             now = time.time()
